@@ -9,7 +9,9 @@ use regex::Regex;
 pub fn word_regex(to_match: &str) -> Regex {
     Regex::new(&format!(
         r"\b{}\b",
-        regex::escape(to_match).replace("\\*", ".*")
+        regex::escape(to_match)
+            .replace("\\*", ".*")
+            .replace("\\?", ".")
     ))
     .expect("invalid wildcard regex")
 }
@@ -23,7 +25,9 @@ pub fn word_regex(to_match: &str) -> Regex {
 pub fn wildcard_regex(to_match: &str) -> Regex {
     Regex::new(&format!(
         "^{}$",
-        regex::escape(to_match).replace("\\*", ".*")
+        regex::escape(to_match)
+            .replace("\\*", ".*")
+            .replace("\\?", ".")
     ))
     .expect("invalid wildcard regex")
 }
